@@ -9,6 +9,13 @@ mod g2;
 #[cfg(test)]
 mod tests;
 
+#[cfg(feature = "verif-hooks")]
+pub use self::chain::{chain_p2m9div16 as verif_chain_p2m9div16, chain_pm3div4 as verif_chain_pm3div4};
+#[cfg(feature = "verif-hooks")]
+pub use self::g1::verif_consts as verif_osswu_g1_consts;
+#[cfg(feature = "verif-hooks")]
+pub use self::g2::verif_consts as verif_osswu_g2_consts;
+
 use ff::Field;
 use CurveProjective;
 
